@@ -30,3 +30,70 @@ def obligations(tier, seed):
     add("c14_not_periodic", covers=5, role="period", exists=True, native=("c14_native", "not_periodic"), desc="small-range draws are not periodic with period <= 16", bounds="all seeds, 33 draws")
     add("c14_twin_false", expect="fail", desc="deliberately false twin")
     return obs
+
+
+# ---------------------------------------------------------------- seed determinism on the MIR of rlib_rand (z3)
+# Under CBMC the same claim needs two 64-bit multiplier chains to be proved equal (no verdict in 900 s); at the term level
+# the two streams are the same term, so the SMT query is immediate.
+import os, sys, time
+from vp import kani as _k
+
+META["functions_encoded"].append("MIR of rlib_rand::LinearCongruentialGenerator64::{from_seed,next_raw} (seed determinism, symbolic seed)")
+META["bounds"]["quick"] += "; determinism: equal seeds and copies give equal streams for every 64-bit seed, 8 draws (SMT on the MIR)"
+META["outside_claim"] = [x for x in META["outside_claim"] if "determinism" not in x]
+
+
+def run_engine(tier, seed, known, only):
+    sys.path.insert(0, _k.VERIF)
+    import z3
+    from mirsym import core
+    from mirsym.conc_check import ConcProgram, Free
+    out = {"records": [], "violations": [], "known": [], "inconclusive": []}
+    t0 = time.time()
+    try:
+        rt = core.dump_mir(_k.REPO, "rlib/rand", os.path.join(_k.BUILD, "C14", "mir"), False, "rel")
+        P = ConcProgram("", rt)
+        P.cur = Free(0)
+        s = z3.BitVec("seed", 64)
+        sub = {"A": "6364136223846793005_u64", "C": "1442695040888963407_u64"}
+        def stream(n):
+            m = core.Machine(P)
+            g = m.run(P.one("from_seed"), [core.I(s, "u64")], sub)
+            cell = [g]
+            outv = []
+            for _ in range(n):
+                outv.append(m.run(P.one("next_raw"), [core.Ref(cell, 0)], sub))
+            return outv, cell
+        a, ca = stream(8)
+        b, cb = stream(8)
+        # a copy taken after 3 draws continues with the same stream
+        m = core.Machine(P)
+        g = m.run(P.one("from_seed"), [core.I(s, "u64")], sub)
+        c1 = [g]
+        pre = [m.run(P.one("next_raw"), [core.Ref(c1, 0)], sub) for _ in range(3)]
+        c2 = [core.copyval(c1[0])]
+        x = [m.run(P.one("next_raw"), [core.Ref(c1, 0)], sub) for _ in range(3)]
+        y = [m.run(P.one("next_raw"), [core.Ref(c2, 0)], sub) for _ in range(3)]
+        claims = [("equal seeds give equal streams (8 draws)", z3.And([p.z() == q.z() for p, q in zip(a, b)])),
+                  ("a copy continues with the same stream", z3.And([p.z() == q.z() for p, q in zip(x, y)])),
+                  ("the stream is not constant (vacuity witness: must be refutable)", z3.And([a[0].z() == a[1].z()]))]
+        for i, (desc, claim) in enumerate(claims):
+            sv = z3.Solver(); sv.set("timeout", 60000); sv.add(z3.Not(claim))
+            r = sv.check()
+            expect_fail = i == 2
+            status = "PASS" if r == z3.unsat else ("FAIL" if r == z3.sat else "UNKNOWN")
+            ok = (status == "FAIL") if expect_fail else (status == "PASS")
+            rec = {"name": "determinism:%d" % i, "engine": "mirsym", "status": status, "ok": ok, "queries": 1, "time": time.time() - t0, "desc": desc, "bounds": "all 64-bit seeds"}
+            if expect_fail:
+                rec["expect"] = "fail"
+            out["records"].append(rec)
+            print("  [C14] %-8s determinism:%d %s" % (status, i, desc), flush=True)
+            if not ok:
+                if status == "FAIL" and not expect_fail:
+                    mdl = sv.model()
+                    out["inconclusive"].append({"obligation": rec["name"], "reason": "refuted for seed %s - no native replay wired for this obligation" % mdl.eval(s, model_completion=True)})
+                else:
+                    out["inconclusive"].append({"obligation": rec["name"], "reason": "z3 %s" % status})
+    except core.Unsupported as e:
+        out["inconclusive"].append({"obligation": "determinism", "reason": "mirsym: %s" % e})
+    return out
